@@ -176,9 +176,10 @@ pub(super) fn range_piece(p: &mut Parser) -> CompletedMarker {
     p.start_node(SyntaxKind::RangePiece);
     integer(p).or_error(p, "expected integer or bitrange");
     if p.at_set(&[T![...], T![-]]) {
+        // after the separator the end of the range is required
         p.eat();
-    }
-    if p.at(TokenKind::IntVal) {
+        integer(p).or_error(p, "expected integer value as end of range");
+    } else if p.at(TokenKind::IntVal) {
         integer(p).or_error(p, "expected integer value as end of range");
     }
     p.finish_node();
@@ -213,9 +214,16 @@ pub(super) fn slice_element(p: &mut Parser) -> CompletedMarker {
     p.start_node(SyntaxKind::SliceElement);
     value(p);
     if p.at_set(&[T![...], T![-]]) {
+        // after the separator the end of the slice is required
         p.eat();
+        if p.at_set(&VALUE_START) {
+            value(p);
+        } else {
+            p.error("expected value as end of slice range");
+        }
+    } else {
+        opt_value(p);
     }
-    opt_value(p);
     p.finish_node();
     CompletedMarker::Success
 }
